@@ -24,7 +24,7 @@ type c16case struct {
 	Layout    string `json:"layout"`   // "" = unset; "<default>" = SetTimeFormat() without argument
 	Format    string `json:"format"`
 	Prior     string `json:"prior_record,omitempty"` // "" | utc-logger | local-layout-logger : a record emitted just before by another logger
-	FlagPath  string `json:"flag_path,omitempty"`    // "" = SetFlags | "scope" = a SaveFlagsAndMod scope toggling the date/time flags has just ended
+	FlagPath  string `json:"flag_path,omitempty"`    // "" = SetFlags | "scope" = a SaveFlagsAndMod scope toggling the date/time flags has just ended | "late" = the flags are set after the loggers were created under the opposite flags
 	Sec       int64  `json:"unix_sec,omitempty"`     // used instead of Instant for years outside 0..9999
 	Nsec      int64  `json:"unix_nsec,omitempty"`
 }
@@ -95,7 +95,12 @@ func c16eval(cas c16case) *Violation {
 	if cas.LocalTime {
 		fl |= slog.LlocalTime
 	}
-	setFlagsVia(fl, caseSeq/2)
+	if cas.FlagPath == "late" {
+		// the loggers are created (and configured) while the process-wide flags say the opposite; the flags of the case are set just before the record
+		setFlagsVia(fl^(slog.Ldatetimeflags|slog.LlocalTime), caseSeq/2)
+	} else {
+		setFlagsVia(fl, caseSeq/2)
+	}
 	if cas.FlagPath == "scope" {
 		restore := slog.SaveFlagsAndMod(slog.Ldatetimeflags&^(fl&slog.Ldatetimeflags)|slog.LlocalTime&^(fl&slog.LlocalTime), fl&slog.Ldatetimeflags, fl&slog.LlocalTime)
 		restore()
@@ -187,6 +192,9 @@ func c16eval(cas c16case) *Violation {
 			l.SetTimeFormat("", cas.Layout, "") // empty entries of the list are skipped, the last non-empty one counts
 		}
 		layouts = []string{cas.Layout}
+	}
+	if cas.FlagPath == "late" {
+		setFlagsVia(fl, caseSeq/2+1)
 	}
 	pan := catch(func() { l.WriteThru(bg, slog.InfoLevel, inst, 0, "m", nil) })
 	mk := func(clause, detail string) *Violation {
@@ -309,7 +317,9 @@ func c16cases(thorough bool, emit func(c16case)) {
 									if !thorough {
 										sel = j / 3
 									}
-									switch sel % 5 {
+									switch sel % 6 {
+									case 5:
+										v.FlagPath = "late"
 									case 4:
 										v.Prior = "child-of-configured-parent"
 									case 0:
